@@ -700,7 +700,7 @@ fn hx(s: &str) -> String {
 
 const KEYS: &[&str] = &["a", "b", "c", "d", "k1", "key", "x y", "n"];
 const PLAIN_VALUES: &[&str] = &[
-    "1", "-2", "3.5", "0x1F", "0o17", "true", "false", "null", "~", "word", "two words", "a,b", "a, b", "x]", "u}", "[z", "http://x/y", "a#b", "-x", "1_000",
+    "1", "-2", "3.5", "0x1F", "0o17", "true", "false", "null", "~", "word", "two words", "a,b", "a, b", "x]", "u}", "http://x/y", "a#b", "-x", "1_000",
     ".5", "+.inf", ".nan", "yes", "12:30", "2001-12-14", "é", "😀", "a:b",
 ];
 const QUOTED_VALUES: &[&str] = &[
@@ -831,9 +831,9 @@ impl<'a> DocGen<'a> {
     }
 
     /// A block node whose first line starts at the current position; following lines at `ind`.
-    fn node(&mut self, ind: usize, depth: usize) {
+    fn node(&mut self, ind: usize, depth: usize, coll: bool) {
         let pad = " ".repeat(ind);
-        let kind = if depth >= 3 || self.budget <= 0 { 9 } else { self.r.below(10) };
+        let kind = if coll { self.r.below(5) } else if depth >= 3 || self.budget <= 0 { 9 } else { self.r.below(10) };
         match kind {
             0..=2 => {
                 // mapping
@@ -869,7 +869,7 @@ impl<'a> DocGen<'a> {
                     // compact nested node or scalar
                     if self.r.chance(1, 3) && depth < 3 {
                         self.out.push(' ');
-                        self.node(ind + 2, depth + 1);
+                        self.node(ind + 2, depth + 1, true);
                     } else {
                         self.out.push(' ');
                         self.scalar(ind, true);
@@ -902,7 +902,8 @@ impl<'a> DocGen<'a> {
             }
             _ => {
                 // nested block collection, maybe anchored
-                if self.r.chance(1, 4) {
+                let anchored = self.r.chance(1, 4);
+                if anchored {
                     let name = format!("n{}", self.anchors.len());
                     self.out.push_str(&format!(" &{name}"));
                     self.anchors.push(name);
@@ -913,7 +914,7 @@ impl<'a> DocGen<'a> {
                 // only collections here
                 let save = self.budget;
                 let start = self.out.len();
-                self.node(ind + step, depth + 1);
+                self.node(ind + step, depth + 1, anchored);
                 let _ = (save, start);
             }
         }
@@ -1111,7 +1112,7 @@ pub fn gen(tier: Tier, r: &mut Rng, emit: &mut dyn FnMut(String)) {
         emit(format!("C15 sloop {} {}", hx(d), r.below(9)));
     }
     // ---- leg 2: CLI end to end (batched over worker threads, results cached for `exec`)
-    let n_cli = if quick { 900 } else { 15_000 };
+    let n_cli = if quick { 600 } else { 15_000 };
     let mut reqs: Vec<String> = Vec::new();
     for i in 0..n_cli {
         let d = &docs[r.usize_below(docs.len().max(1)) % docs.len().max(1)];
